@@ -207,3 +207,7 @@ package cache
 //@   loop 1 invariant[nothing-invented] forall k string :: lruHas(stc, k) ==> lruHas(old0, k) && toInt(lruVal(stc, k)) == toInt(lruVal(old0, k)) && old(lruAge(old0, k)) >= n - size
 //@   loop 1 invariant[old-untouched] forall k string :: lruHas(old0, k) == old(lruHas(old0, k)) && toInt(lruVal(old0, k)) == toInt(old(lruVal(old0, k)))
 //@   modifies c.kept, all(lruHas), all(lruVal), all(lruLen), all(lruAge), all(sentN)
+
+// ---- C35: the reason table is shared by all users of one decision cache
+//@ guarded_by collect/cache.KeptReasonsCache.mu: data, keys
+//@ lockdiscipline collect/cache.KeptReasonsCache mu props C35
